@@ -150,7 +150,10 @@ func (h HttpSigTransport) Deliver(c context.Context, b []byte, to *url.URL) erro
 	req.Header.Add("User-Agent", fmt.Sprintf("%s %s", h.appAgent, h.gofedAgent))
 	req.Header.Set("Host", to.Host)
 	h.postSignerMu.Lock()
-	err = h.postSigner.SignRequest(h.privKey, h.pubKeyId, req, b)
+	// The signer gets the payload without its spare capacity: computing the
+	// digest appends to the slice it is given, which would write into the
+	// caller's memory behind the payload.
+	err = h.postSigner.SignRequest(h.privKey, h.pubKeyId, req, b[:len(b):len(b)])
 	h.postSignerMu.Unlock()
 	if err != nil {
 		return err
